@@ -313,8 +313,8 @@ class SimOps:
 
         # copy memory location to PO/PPO area
         for i, n in enumerate(circuit.s_nodes):
-            if len(n.ins) > 0:
-                i0_idx = n.ins[0] if n.ins[0] is not None else self.zero_idx  # unconnected pin reads constant 0
+            if len(n.ins) > 0 or i >= len(circuit.io_nodes):  # ports with inputs and all state elements are captured
+                i0_idx = n.ins[0] if len(n.ins) > 0 and n.ins[0] is not None else self.zero_idx  # unconnected pin reads constant 0
                 self.c_locs[self.ppo_offset + i], self.c_caps[self.ppo_offset + i] = self.c_locs[i0_idx], self.c_caps[i0_idx]
 
         self.c_len = h.max_size
